@@ -68,10 +68,9 @@ def check_views(ctx, x, S, rng, tag):
     same = bf is not None and bp is not None and bf == bp
     if not same:
         # identical bound gate sequences are sufficient, not necessary: decide with the unitaries when feasible
-        if x.n_qubits <= 6:
-            if not G.unitary_equiv(full, bound):
-                ctx.violate("a partially parameterised view bound with the per-layer values denotes a different unitary than the bound circuit",
-                            inp, {"full": G.instructions(full)[:12], "partial": G.instructions(bound)[:12]}, key="C04:views")
+        if (x.n_qubits <= 6 and not G.unitary_equiv(full, bound)) or (6 < x.n_qubits <= 16 and G.differ_on_states(full, bound)):
+            ctx.violate("a partially parameterised view bound with the per-layer values denotes a different unitary than the bound circuit",
+                        inp, {"full": G.instructions(full)[:12], "partial": G.instructions(bound)[:12]}, key="C04:views")
         ctx.disagree("views differ as gate sequences", inp, str(bp)[:300], str(bf)[:300])
     if len(bound.parameters) != 0:
         ctx.violate("parameters remain after binding the symbolic layers", inp, [p.name for p in bound.parameters][:6], key="C04:unbound")
@@ -99,7 +98,7 @@ def check_change(ctx, x, lid, rng):
     ctx.case({"change": inp}, nontrivial=nl >= 2, tags=["change_layer"])
     ba, bb = G.binding_of(a, x), G.binding_of(b, x)
     if ba is None or bb is None or ba != bb:
-        if x.n_qubits <= 6 and not G.unitary_equiv(a, b):
+        if (x.n_qubits <= 6 and not G.unitary_equiv(a, b)) or (6 < x.n_qubits <= 16 and G.differ_on_states(a, b)):
             ctx.violate("replacing one layer's values does not act like binding them into that layer of the partially parameterised circuit",
                         inp, None, key="C04:change")
         ctx.disagree("change-layer views differ as gate sequences", inp, str(ba)[:300], str(bb)[:300])
